@@ -67,6 +67,24 @@ CHECKS = {
         COSCHED_NOTE,
         "DESIGN.md section 2.1 and section 4, C03",
     ),
+    "C04": (
+        "smallscope",
+        "bounded-exhaustive enumeration of chains, groupings, curry splits and constructor "
+        "signatures against hand nesting and an independent call binder",
+        "Chains of up to 5 (quick) / 6 (thorough) recording elements under every "
+        "parenthesisation of >>, three tail forms and every split of each element's arguments "
+        "over curry calls, compared with hand-nested constructor calls (construction log and "
+        "object graph); every constructor signature of a small grammar x role x plain / "
+        "@service x every argument list x every split over two calls, and every shipped "
+        "template owner, compared with an independent binder (TypeError at supply time iff the "
+        "arguments can never bind); the binder itself is validated exhaustively against real "
+        "constructor calls.",
+        "Trusted: the reference binder (validated in-bounds against real calls) and the hand "
+        "nesting; signatures outside the grammar (positional-only parameters, more than 3 "
+        "parameters), longer chains and other argument values are not covered; for n >= 3 the "
+        "argument variants are complete at one focus position at a time.",
+        "DESIGN.md section 4, C04",
+    ),
     "C10": (
         "cosched",
         "stateless exhaustive schedule exploration of the real runtime with iterative "
